@@ -1068,7 +1068,7 @@ def run(ctx):
                                "float arithmetic modelled exactly over Q and tied by correspondence within 1e-9 on inputs exactly representable in binary64"]
     ctx.assumptions = ["binary64 rounding is not modelled (theorems exact over Q)", "number grammar restricted to canonical ints and d+.d+ decimals in the model"]
     forbidden_gate(ctx, ["Base", "C10"])
-    ok, why = check_props(ctx, "C10/Props.v", ["C10/Harness.vo", "C10/Proofs.vo", "C10/ProofsMode.vo", "C10/ProofsMinMax.vo"])
+    ok, why = check_props(ctx, "C10/Props.v", ["C10/Harness.vo", "C10/Proofs.vo", "C10/ProofsMode.vo", "C10/ProofsMinMax.vo", "C10/ProofsFrac.vo", "C10/ProofsStep.vo"])
     ncases = int(os.environ.get("C10_CASES", "0")) or (900 if ctx.tier == "quick" else 8000)
     terms, meta = [], []
     oracle_bad = []
